@@ -204,3 +204,17 @@ class BadHoistedSkipCount(Table):
                 self.memo.append(row)
             n += 1
             yield row
+
+
+class BadPerViewRandom(Table):
+    def __init__(self, n, seed):
+        self.n = n
+        self.seed = seed
+        self._rnd = random.Random()     # one generator shared by all iterators
+
+    def __iter__(self):
+        rnd = self._rnd
+        rnd.seed(self.seed)
+        yield ('x',)
+        for _ in range(self.n):
+            yield (rnd.random(),)
